@@ -771,6 +771,98 @@ pub open spec fn range_is(es: Seq<StreamEntry>, start: StreamId, end: StreamId, 
     &&& (reverse ==> forall|j: int| 0 <= j < r.len() ==> #[trigger] r[j] == es[hi1 - 1 - j])
 }
 
+/// MODEL of the atomics of `Stream` that the log operations keep in step with the entry vector (XLEN reads `length`): plain fields; each
+/// `stream.<field>.fetch_add / fetch_sub / store(.., Ordering::Relaxed)` is rewritten (RT, listed per unit) to the assignment it performs
+pub struct Stream { pub length: usize, pub memory_usage: usize, pub last_id_millis: u64, pub last_id_seq: u64 }
+/// `a <= b` on StreamId (R7 site): the order of the packed value
+#[verifier::external_body]
+pub fn sid_le(a: StreamId, b: StreamId) -> (r: bool) ensures r == (a.packed <= b.packed), { unimplemented!() }
+/// the stream's log is well formed: strictly increasing ids, none above last_id, and XLEN's counter is the number of entries
+spec fn log_wf(d: StreamData, s: Stream) -> bool {
+    &&& sorted_ids(d.entries@)
+    &&& forall|j: int| 0 <= j < d.entries@.len() ==> (#[trigger] d.entries@[j]).id.packed <= d.last_id.packed
+    &&& s.length == d.entries@.len()
+}
+
+impl StreamId {
+    /// ASSUMED CONTRACTS (stream.rs millis / seq: shifts of the packed value; the packing itself is C15's Kani unit sid_pack_order)
+    #[verifier::external_body]
+    pub fn millis(&self) -> (r: u64) { unimplemented!() }
+    #[verifier::external_body]
+    pub fn seq(&self) -> (r: u64) { unimplemented!() }
+}
+impl StreamData {
+    /// ASSUMED CONTRACT (calculate_entry_size: a sum over the fields): some size; the memory counters are not part of any property here
+    #[verifier::external_body]
+    fn calculate_entry_size(entry: &StreamEntry) -> (r: usize) ensures r <= usize::MAX / 4, { unimplemented!() }
+
+//@@ unit data_add_with_id fn src/storage/stream.rs StreamData::add_with_id
+//@@   params drop "stream: &Stream" add "stream: &mut Stream"
+//@@   rewrite R7 "id <= self.last_id" sid_le
+//@@   rewrite RXPR "self.entries.binary_search_by(|e| e.id.cmp(&id)) .is_ok()" "verif_bsearch(&self.entries, &id).is_ok()"
+//@@   rewrite RT "stream.length.fetch_add(1, Ordering::Relaxed);" "stream.length = stream.length + 1;"
+//@@   rewrite RT "stream.last_id_millis.store(id.millis(), Ordering::Relaxed);" "stream.last_id_millis = id.millis();"
+//@@   rewrite RT "stream.last_id_seq.store(id.seq(), Ordering::Relaxed);" "stream.last_id_seq = id.seq();"
+//@@   rewrite RT "stream.memory_usage.fetch_add(entry_size, Ordering::Relaxed);" "stream.memory_usage = stream.memory_usage.wrapping_add(entry_size);"
+//@@   rewrite RT "self.memory_usage += entry_size;" "self.memory_usage = self.memory_usage.wrapping_add(entry_size);"
+    fn add_with_id(&mut self, id: StreamId, fields: HashMap<Vec<u8>, Vec<u8>>, stream: &mut Stream) -> (r: Result<(), &'static str>)
+        requires log_wf(*old(self), *old(stream)),
+        ensures log_wf(*final(self), *final(stream)),
+            // C15: XADD with an explicit id not greater than the last one is refused without effect ...
+            id.packed <= old(self).last_id.packed ==> r is Err && final(self).entries@ == old(self).entries@ && final(self).last_id == old(self).last_id && final(stream).length == old(stream).length,
+            // ... and a greater one is appended: the log grows by exactly that entry, at the end, and it becomes the last id
+            id.packed > old(self).last_id.packed ==> r is Ok && final(self).entries@ == old(self).entries@.push(StreamEntry { id: id, fields: fields }) && final(self).last_id == id,
+//@@ body
+//@@ end
+}
+
+/// `data.entries.drain(..n);` (RXPR site): removes the first n entries
+#[verifier::external_body]
+pub fn verif_drain_front(v: &mut Vec<StreamEntry>, n: usize)
+    requires n <= old(v)@.len(),
+    ensures final(v)@ == old(v)@.subrange(n as int, old(v)@.len() as int),
+{ unimplemented!() }
+/// `data.entries.iter().take(n).map(StreamData::calculate_entry_size).sum()` (RXPR site): some size (memory accounting is not part of a property here)
+#[verifier::external_body]
+pub fn verif_mem_of_front(v: &Vec<StreamEntry>, n: usize) -> usize { unimplemented!() }
+
+//@@ unit stream_trim_by_count fn src/storage/stream.rs Stream::trim_by_count
+//@@   params drop "&self" add "data: &mut StreamData" add "stream: &mut Stream"
+//@@   rewrite RT "let mut data = self.data.lock().unwrap();" ""
+//@@   rewrite RXPR "data.entries.iter() .take(to_remove) .map(StreamData::calculate_entry_size) .sum()" "verif_mem_of_front(&data.entries, to_remove)"
+//@@   rewrite RXPR "data.entries.drain(..to_remove)" "verif_drain_front(&mut data.entries, to_remove)"
+//@@   rewrite RT "data.memory_usage -= memory_to_free;" "data.memory_usage = data.memory_usage.wrapping_sub(memory_to_free);"
+//@@   rewrite RT "self.length.fetch_sub(to_remove, Ordering::Relaxed);" "stream.length = stream.length - to_remove;"
+//@@   rewrite RT "self.memory_usage.fetch_sub(memory_to_free, Ordering::Relaxed);" "stream.memory_usage = stream.memory_usage.wrapping_sub(memory_to_free);"
+fn trim_by_count(data: &mut StreamData, stream: &mut Stream, max_count: usize) -> (r: usize)
+    requires log_wf(*old(data), *old(stream)),
+    ensures log_wf(*final(data), *final(stream)), final(data).last_id == old(data).last_id,
+        // C15 (XTRIM MAXLEN): the OLDEST entries go until at most max_count are left; the reply is how many went; XLEN follows
+        r == (if old(data).entries@.len() <= max_count { 0 } else { old(data).entries@.len() - max_count }),
+        final(data).entries@ == old(data).entries@.subrange(r as int, old(data).entries@.len() as int),
+//@@ body
+//@@ end
+
+//@@ unit stream_trim_by_min_id fn src/storage/stream.rs Stream::trim_by_min_id
+//@@   params drop "&self" add "data: &mut StreamData" add "stream: &mut Stream"
+//@@   rewrite RT "let mut data = self.data.lock().unwrap();" ""
+//@@   rewrite RXPR "data.entries.binary_search_by(|e| e.id.cmp(min_id)) .unwrap_or_else(|idx| idx)" "verif_lower_bound(&data.entries, min_id)"
+//@@   rewrite RXPR "data.entries.iter() .take(split_idx) .map(StreamData::calculate_entry_size) .sum()" "verif_mem_of_front(&data.entries, split_idx)"
+//@@   rewrite RXPR "data.entries.drain(..split_idx)" "verif_drain_front(&mut data.entries, split_idx)"
+//@@   rewrite RT "data.memory_usage -= memory_to_free;" "data.memory_usage = data.memory_usage.wrapping_sub(memory_to_free);"
+//@@   rewrite RT "self.length.fetch_sub(split_idx, Ordering::Relaxed);" "stream.length = stream.length - split_idx;"
+//@@   rewrite RT "self.memory_usage.fetch_sub(memory_to_free, Ordering::Relaxed);" "stream.memory_usage = stream.memory_usage.wrapping_sub(memory_to_free);"
+fn trim_by_min_id(data: &mut StreamData, stream: &mut Stream, min_id: &StreamId) -> (r: usize)
+    requires log_wf(*old(data), *old(stream)),
+    ensures log_wf(*final(data), *final(stream)), final(data).last_id == old(data).last_id,
+        // C15 (XTRIM MINID): exactly the entries with an id below min_id go; the reply is how many; XLEN follows
+        r <= old(data).entries@.len(),
+        final(data).entries@ == old(data).entries@.subrange(r as int, old(data).entries@.len() as int),
+        forall|j: int| 0 <= j < r ==> (#[trigger] old(data).entries@[j]).id.packed < min_id.packed,
+        forall|j: int| r <= j < old(data).entries@.len() ==> (#[trigger] old(data).entries@[j]).id.packed >= min_id.packed,
+//@@ body
+//@@ end
+
 impl StreamData {
 //@@ unit data_range fn src/storage/stream.rs StreamData::range
 //@@   rewrite RXPR "self.entries.binary_search_by(|e| e.id.cmp(start)) .unwrap_or_else(|idx| idx)" "verif_lower_bound(&self.entries, start)"
